@@ -440,6 +440,34 @@ def run_check(spec, tier, seed):
                 ctx.obligation(t, False, "uses axioms %s" % a)
             else:
                 ctx.obligation(t, True, "axioms %s" % a)
+        # 3b. translated kernels (T): Python source of scalar kernels -> Gen/Kernels.lean -> equality with the model
+        try:
+            from . import kernels
+            kob = kernels.obligations(spec.pid)
+        except Exception as e:  # the translator itself is framework code
+            raise Infra("kernel translator failed to load: %r" % (e,))
+        if kob:
+            kmod, kthms = kob
+            try:
+                kernels.extract()
+                kok, kout = lake_build([kmod])
+                if kok:
+                    kax, _ = audit_axioms(spec.pid + "_kernels", kmod, kthms)
+                    for t in kthms:
+                        a = kax.get(t)
+                        okk = a is not None and set(a) <= ALLOWED_AXIOMS
+                        ctx.obligation("kernel:" + t.split(".")[-1], okk,
+                                       "axioms %s" % a if okk else "translated source no longer equals the model (or uses axioms %s)" % a)
+                else:  # some kernel theorem broke: find out which ones belong to this property
+                    st = kernels.status()
+                    for t in kthms:
+                        err = st.get(t, "not elaborated")
+                        ctx.obligation("kernel:" + t.split(".")[-1], err is None,
+                                       "" if err is None else "translated Python source no longer equals the Lean model: %s" % str(err)[:300])
+            except Infra:
+                raise
+            except Exception as e:
+                ctx.obligation("kernel-translation", False, "extraction from the Python source failed: %r" % (e,))
         if not ctx.quick and build_ok:
             with LakeLock():
                 p = subprocess.run(
